@@ -119,7 +119,32 @@ def bounded(check, tier, seed):
     s.done()
 
 
+
+def long_inputs(check, tier):
+    from bounded.common import long_values
+    s = Suite(check, "C19.long", "== / != / hash / dict membership of values with thousands of runs against their terminal strings", bound="<= 6000 characters")
+    vals = long_values()
+    for label, v in vals:
+        w = fresh_copy_of(v)
+        t = str(fresh_copy_of(v))
+        s.case(label, sample=label)
+        try:
+            if not (v == w) or v != w or hash(v) != hash(w) or {v: 1}.get(w) != 1:
+                s.fail("C19.eq.long", dict(value=label), "a value and a structurally equal copy are not equal / do not hash alike")
+            if not (v == t and t == v) or hash(v) != hash(t):
+                s.fail("C19.eq_str.long", dict(value=label), "a value does not equal / hash like its own terminal string")
+            if v == w + "x" or (v[:-1] == v):
+                s.fail("C19.eq.long", dict(value=label), "values with different terminal strings compare equal")
+        except Exception as e:      # noqa: BLE001
+            s.fail("C19.eq.long", dict(value=label), f"raised {type(e).__name__}: {e}")
+    for (la, a), (lb, b) in itertools.combinations(vals, 2):
+        s.case((la, lb))
+        if (a == b) != (str(fresh_copy_of(a)) == str(fresh_copy_of(b))):
+            s.fail("C19.eq.long", dict(f=la, g=lb), "== disagrees with the terminal strings")
+    s.done()
+
 def run(check, tier, seed):
+    long_inputs(check, tier)
     for c in CONTRACTS:
         verify(c, tier, check)
     bounded(check, tier, seed)
